@@ -212,12 +212,12 @@ int pick_next(const char* op) {
   return next;
 }
 
-void schedule(const char* op, uint64_t arg) {
+void schedule(const char* op, uint64_t arg, bool may_throw = true) {
   int from = g_cur;
   int next = pick_next(op);
   vsim::ev(op, from, next, arg);
   if (next != g_cur) switch_to(next);
-  if (g_abort && g_tasks[g_cur]->st != Task::FINISHED) throw vsim::AbortRun();
+  if (may_throw && g_abort && g_tasks[g_cur]->st != Task::FINISHED) throw vsim::AbortRun();
 }
 
 void trampoline() {
@@ -306,7 +306,9 @@ int spawn(std::function<void()> fn) {
   makecontext(&t->ctx, (void (*)())trampoline, 0);
   if (__tsan_release) __tsan_release(&t->spawn_sync);
   g_tasks.push_back(t);
-  schedule("spawn", t->id);
+  // never unwind out of a thread constructor after the task exists (the std::thread object would not
+  // be constructed and nobody would own the task); an abort is delivered at the next scheduling point
+  schedule("spawn", t->id, false);
   return t->id;
 }
 
